@@ -43,6 +43,7 @@ class Check:
         self.open_classes = sorted({e["class"] for e in self.known if e["status"] == "open"})
         self.violations = []  # confirmed: (record, replay_path)
         self.flaky = []
+        self.unreplayable = []
         self.known_lines = []
         self.notes = []
 
@@ -161,7 +162,14 @@ class Check:
                     break
                 rec.setdefault("property", self.prop)
                 rec["also_failing_on"] = tg
-                ok, fails, out = self.confirm(driver, rec, extra)
+                try:
+                    ok, fails, out = self.confirm(driver, rec, extra)
+                except HarnessError as e:
+                    # the worker saw a failure that the replay path cannot re-run: never a silent pass (finish() raises
+                    # unless other candidates were confirmed), never a violation on its own
+                    self.unreplayable.append((rec, str(e)))
+                    done += 1
+                    continue
                 if ok:
                     self.violations.append((rec, self.save_violation(rec)))
                     done += 1
@@ -267,6 +275,9 @@ class Check:
         return ev
 
     def finish(self):
+        if self.unreplayable and not self.violations:
+            rec, msg = self.unreplayable[0]
+            raise HarnessError("%d candidate(s) could not be replayed, e.g. %s %s %s: %s" % (len(self.unreplayable), rec.get("op"), rec.get("type"), rec.get("target"), msg))
         for l in self.known_lines:
             print(l)
         for rec, path in self.violations:
